@@ -88,6 +88,30 @@ fn impl_request(req: &str) -> String {
             move || show_res(&Host::parse_opaque(&s))
         }),
         ("disp", 2) => impl_disp(w[1]),
+        // the Coq specification model against the transcription in mod spec (both from the Standard's prose)
+        ("spec6", 2) => match spec::ipv6(&unhexs(w[1])) {
+            Some(a) => format!("ok:{}", hexl(a.iter().map(|&x| x as u32))),
+            None => "fail".into(),
+        },
+        ("specser", 2) => {
+            let v = unhexl(w[1]);
+            let mut a = [0u16; 8];
+            for i in 0..8 {
+                a[i] = v[i] as u16;
+            }
+            hexs(&spec::ser_ipv6(&a))
+        }
+        ("spec4", 2) => {
+            let s = unhexs(w[1]);
+            format!(
+                "{} {}",
+                match spec::ipv4(&s) {
+                    Some(a) => format!("ok:{:x}", a),
+                    None => "fail".into(),
+                },
+                if spec::ends_in_number(&s) { "1" } else { "0" }
+            )
+        }
         _ => "?".into(),
     }
 }
@@ -473,6 +497,17 @@ fn run_corr(args: &Args) -> Report {
     let mut k = 0u64;
     streams(&args.tier, args.seed, &mut notes, &mut |stream, req| {
         compare(&mut drv, &mut rep, stream, &req);
+        // the specification model against its independent transcription
+        if let Some(rest) = req.strip_prefix("disp 6:") {
+            compare(&mut drv, &mut rep, "spec-validation", &format!("specser {}", rest));
+        } else if let Some(rest) = req.strip_prefix("parse ") {
+            let t = unhexs(rest);
+            if t.starts_with('[') && t.ends_with(']') && t.len() >= 2 {
+                compare(&mut drv, &mut rep, "spec-validation", &format!("spec6 {}", hexs(&t[1..t.len() - 1])));
+            } else if !t.is_empty() && t.is_ascii() && (stream.contains("ipv4") || stream == "corpus" || stream == "exh-host-classes") {
+                compare(&mut drv, &mut rep, "spec-validation", &format!("spec4 {}", rest));
+            }
+        }
         // the exported result-typed entry points agree with the crate as well (sampled)
         k += 1;
         if k % 16 == 0 {
